@@ -24,11 +24,13 @@ CONSTANTS FEAsFound,     \* TRUE: the code as found (initDone tested and set wit
 VARIABLES lock,          \* holder of initMutex (0 = free)
           initDone,      \* the package variable
           inits,         \* number of sandbox.Init calls made so far
-          req            \* j -> [pc, badctx, out, body, status, sent]
+          req,           \* j -> [pc, badctx, out, body, status, sent]
+          lines          \* j -> the lines the handler has printed for the request (START / END / REPORT)
 
-vars == <<lock, initDone, inits, req>>
+vars == <<lock, initDone, inits, req, lines>>
 
-NoReq == [pc |-> "none", badctx |-> FALSE, out |-> "", body |-> "empty", status |-> 0, sent |-> "empty"]
+NoReq == [pc |-> "none", badctx |-> FALSE, out |-> "", body |-> "empty", status |-> 0, sent |-> "empty",
+          ran |-> FALSE]       \* ran: this request ran InitHandler
 
 \* the answer the handler writes for an outcome of sandbox.Invoke (out = "" : nil error)
 \* body "proxy" = whatever the sandbox wrote to the ResponseWriterProxy
@@ -47,18 +49,26 @@ Answer(out) ==
       \* else has no case at all): the handler falls through to the success path
       [] OTHER -> [status |-> 200, body |-> "proxy"]
 
-Init == lock = 0 /\ initDone = FALSE /\ inits = 0 /\ req = [j \in Reqs |-> NoReq]
+\* Log lines.  "START RequestId: <id> Version: <v>" is printed right before sandbox.Invoke; "END RequestId: <id>"
+\* and "REPORT RequestId: <id> [Init Duration] Duration ..." when the invocation is over: after a nil error, after
+\* the timeout, and on the paths that fall through the switch - not for the outcomes the handler answers with
+\* an early return.  The REPORT line carries the init duration iff this request ran InitHandler.
+Reports(out) == out \notin {"AlreadyReserved", "InternalServerError", "InitDoneFailed", "ReserveReservationDone",
+                            "AlreadyInvocating", "InvokeReservationDone", "InvokeResponseAlreadyWritten",
+                            "InvokeDoneFailed", "ReleaseReservationDone"}
+
+Init == lock = 0 /\ initDone = FALSE /\ inits = 0 /\ req = [j \in Reqs |-> NoReq] /\ lines = [j \in Reqs |-> <<>>]
 
 Arrive(j, bad) ==
     /\ req[j].pc = "none"
     /\ req' = [req EXCEPT ![j] = [NoReq EXCEPT !.pc = "decoded", !.badctx = bad]]
-    /\ UNCHANGED <<lock, initDone, inits>>
+    /\ UNCHANGED <<lock, initDone, inits, lines>>
 
 \* bad base64 in X-Amz-Client-Context: 500, the sandbox is never called
 RejectHeader(j) ==
     /\ req[j].pc = "decoded" /\ req[j].badctx
     /\ req' = [req EXCEPT ![j].pc = "answered", ![j].status = 500, ![j].sent = "empty"]
-    /\ UNCHANGED <<lock, initDone, inits>>
+    /\ UNCHANGED <<lock, initDone, inits, lines>>
 
 \* initMutex.Lock(); if !initDone { InitHandler(...) ; initDone = true }; initMutex.Unlock()
 \* three steps: lock + test, call, assign + unlock (as found: no mutex)
@@ -67,36 +77,40 @@ TestInitDone(j) ==
     /\ FEAsFound \/ lock = 0
     /\ req' = [req EXCEPT ![j].pc = IF initDone THEN "invoke" ELSE "init"]
     /\ lock' = IF FEAsFound \/ initDone THEN lock ELSE j
-    /\ UNCHANGED <<initDone, inits>>
+    /\ UNCHANGED <<initDone, inits, lines>>
 
 CallInit(j) ==
     /\ req[j].pc = "init"
     /\ inits' = inits + 1
-    /\ req' = [req EXCEPT ![j].pc = "initret"]
-    /\ UNCHANGED <<lock, initDone>>
+    /\ req' = [req EXCEPT ![j].pc = "initret", ![j].ran = TRUE]
+    /\ UNCHANGED <<lock, initDone, lines>>
 
 InitReturns(j) ==
     /\ req[j].pc = "initret"
     /\ initDone' = TRUE
     /\ lock' = IF FEAsFound THEN lock ELSE 0
     /\ req' = [req EXCEPT ![j].pc = "invoke"]
-    /\ UNCHANGED inits
+    /\ UNCHANGED <<inits, lines>>
 
 CallInvoke(j) ==
     /\ req[j].pc = "invoke"
     /\ req' = [req EXCEPT ![j].pc = "invoking"]
+    /\ lines' = [lines EXCEPT ![j] = Append(@, "START")]
     /\ UNCHANGED <<lock, initDone, inits>>
 
 InvokeReturns(j, out, body) ==
     /\ req[j].pc = "invoking"
     /\ req' = [req EXCEPT ![j].pc = "mapped", ![j].out = out, ![j].body = body]
-    /\ UNCHANGED <<lock, initDone, inits>>
+    /\ UNCHANGED <<lock, initDone, inits, lines>>
 
 Respond(j) ==
     /\ req[j].pc = "mapped"
     /\ LET a == Answer(req[j].out) IN
        req' = [req EXCEPT ![j].pc = "answered", ![j].status = a.status,
                           ![j].sent = IF a.body = "proxy" THEN req[j].body ELSE a.body]
+    /\ lines' = IF Reports(req[j].out)
+                THEN [lines EXCEPT ![j] = @ \o <<"END", IF req[j].ran THEN "REPORT+init" ELSE "REPORT">>]
+                ELSE lines
     /\ UNCHANGED <<lock, initDone, inits>>
 
 Next ==
@@ -121,6 +135,13 @@ AnswerFromOwnOutcome ==
 \* With FEAsFound = TRUE TLC violates this with two requests (both test initDone before either sets it):
 \* finding F-C10-2, repaired in /repo by 96ffeac (initMutex).
 InitAtMostOnce == inits <= 1
+
+\* the log of a request is well-formed: nothing before START, END and REPORT together and at most once, only after
+\* START; at most one request reports an init duration
+LogWellFormed ==
+    /\ \A j \in Reqs : lines[j] \in {<<>>, <<"START">>, <<"START", "END", "REPORT">>, <<"START", "END", "REPORT+init">>}
+    /\ \A j \in Reqs : req[j].pc \in {"none", "decoded", "init", "initret", "invoke"} => lines[j] = <<>>
+    /\ (~FEAsFound => Cardinality({j \in Reqs : Len(lines[j]) = 3 /\ lines[j][3] = "REPORT+init"}) <= 1)
 
 \* no request calls Invoke before Init has been called
 InvokeAfterInit == \A j \in Reqs : req[j].pc \in {"invoking", "mapped"} => inits >= 1
